@@ -162,7 +162,9 @@ Section Core.
       inversion IH as [|? ? _ IHargs]; subst.
       assert (Hspec : Forall spec args).
       { rewrite Forall_forall in *. intros y Hy. apply IHargs; [exact Hy | now apply Hargs]. }
-      rewrite elab_app in He. apply bind_ok in He. destruct He as (hi & s1 & Eh & He).
+      assert (Happ : app_head h = true).
+      { destruct Hh as [[[->| ->] _]|[[-> _]|[[-> _]|[[-> _]|[-> _]]]]]; reflexivity. }
+      rewrite (elab_app h args s Happ) in He. apply bind_ok in He. destruct He as (hi & s1 & Eh & He).
       apply bind_ok in He. destruct He as (its & s2 & El & Ec).
       assert (Hhead : exists o, alookup h interpreted_table = Some (HOp o) /\ hi = IOp o /\ s1 = pop1 (pop1 s)).
       { unfold elab_head in Eh.
@@ -234,9 +236,9 @@ Proof.
   - destruct l as [|[h|?] args]; try contradiction.
     apply core_app in Hc. destruct Hc as [Hargs Hh]. inversion IH as [|? ? _ IHargs]; subst.
     cbn [simpleb].
-    assert (Hhd : negb (is_paren h) && app_head h = true).
-    { destruct Hh as [[[->| ->] _]|[[-> _]|[[-> _]|[[-> _]|[-> _]]]]]; reflexivity. }
-    rewrite Hhd. cbn [andb]. apply forallb_forall. intros y Hy.
+    assert (Hhd : negb (is_paren h) = true /\ quant_head h = None /\ app_head h = true).
+    { destruct Hh as [[[->| ->] _]|[[-> _]|[[-> _]|[[-> _]|[-> _]]]]]; repeat split; reflexivity. }
+    destruct Hhd as (-> & -> & ->). cbn [andb]. apply forallb_forall. intros y Hy.
     rewrite Forall_forall in *. apply IHargs; [exact Hy | now apply Hargs].
 Qed.
 
